@@ -241,7 +241,7 @@ package sqlx
 //@ func (*dbInserter).RemoveAll
 //@   prop C16
 //@   requires in != nil
-//@   ensures [whole-batch-handed-over] typeis(result, []string) && unbox(result, []string) == old(in.values) && len(in.values) == 0
+//@   ensures [whole-batch-handed-over] typeis(result, []string) && unbox(result, []string) == old(in.values) && len(in.values) == 0 && cap(in.values) == 0
 //@ func (*dbInserter).Execute
 //@   prop C16
 //@   opaque Errorf
